@@ -21,7 +21,7 @@ import (
 func init() {
 	Registry["C14"] = &Check{
 		Scenarios: c14Scenarios,
-		Rule: "events: CloseNotify requested {inside the first handler, by a free application thread at every possible instant (in particular while the reader is parked in Read), twice (handler + thread), after termination}; two messages delivered in three fragments (one fragment boundary inside the first header); termination by {peer EOF, transport read error, undecodable header followed by trailing bytes, local Close from a free thread at every instant}; an observer thread records the instant the channel closes. The requesting / closing / observing threads and the peer are environment threads, so every ordering of their steps against the library's steps is explored even at preemption bound 0; library preemption bound 2 (quick) / unbounded (thorough). Also sm.Client with the watchdog enabled followed by a quiet peer close (virtual time, horizon 12 s).",
+		Rule: "events: CloseNotify requested {inside the first handler, by a free application thread at every possible instant (in particular while the reader is parked in Read), twice (handler + thread), after termination}; two messages delivered in three fragments (one fragment boundary inside the first header); termination by {peer EOF, transport read error, undecodable header followed by trailing bytes, local Close from a free thread at every instant, a handler panic on the second message (recovered by the serve loop)}; an observer thread records the instant the channel closes. The requesting / closing / observing threads and the peer are environment threads, so every ordering of their steps against the library's steps is explored even at preemption bound 0; library preemption bound 2 (quick) / unbounded (thorough). Also sm.Client with the watchdog enabled followed by a quiet peer close (virtual time, horizon 12 s).",
 		Assume: []string{"data-race freedom between visible operations (audited separately with -race)", "io.Pipe is modelled by vsched.Pipe (Write blocks until the data is consumed or either end is closed)"},
 		QuickBudget: 100, ThoroughBudget: 1500,
 	}
@@ -53,7 +53,7 @@ func c14Scenarios(tier string) []*Scenario {
 	}
 	var out []*Scenario
 	for _, req := range []string{"handler", "thread", "both", "after", "none"} {
-		for _, term := range []string{"eof", "rerr", "garbage", "localclose"} {
+		for _, term := range []string{"eof", "rerr", "garbage", "localclose", "panic"} {
 			b := bound
 			if tier != "thorough" && req == "both" && term == "localclose" {
 				b = 1 // the largest product space: bound 1 in the quick tier, unbounded in the thorough tier
@@ -125,6 +125,11 @@ func c14Scenario(req, term string, bound int) *Scenario {
 			vs.Event("handler got message %d", m.Header.HopByHopID)
 			if (req == "handler" || req == "both") && len(st.handled) == 1 {
 				request(c)
+			}
+			if term == "panic" && len(st.handled) == 2 {
+				st.termIssued = true
+				vs.Event("handler panics on the second message")
+				panic("handler panic (injected)")
 			}
 		})
 		c, err := diam.NewConn(conn, "peer", mux, dict.Default)
